@@ -7,7 +7,6 @@ import (
 	"fmt"
 	"math"
 	"math/rand"
-	"os"
 	"strings"
 
 	"verif/internal/fw"
@@ -146,10 +145,6 @@ func genCase(r *rand.Rand, i int, tier string) any {
 		ws = wpick(r, "normal", 5, "nowrap", 1)
 		engine = "gotext"
 	}
-	if v := os.Getenv("C11_PLAIN"); v != "" { // exploration only
-		ft = features{Hyphen: ft.Hyphen, MultiSp: ft.MultiSp}
-		ws = v
-	}
 	if ws == "pre-wrap" {
 		// pre-wrap is compared on plain text only (see notes: hanging spaces at box boundaries)
 		ft = features{MultiSp: ft.MultiSp, Hyphen: ft.Hyphen}
@@ -175,19 +170,7 @@ func genCase(r *rand.Rand, i int, tier string) any {
 		p.OW = ow
 		p.Indent, p.IndPct = 0, 0
 	}
-	if v := os.Getenv("C11_OW"); v != "" { // exploration only
-		if strings.HasPrefix(v, "wb:") {
-			p.WB = v[3:]
-		} else {
-			p.OW = v
-			p.Indent, p.IndPct = 0, 0
-		}
-	}
-	in := c11In{Mode: "ahem", Engine: engine, Feat: ft.String(), Para: *p, Widths: widthsFor(r, p)}
-	if v := os.Getenv("C11_ENGINE"); v != "" { // exploration only
-		in.Engine = v
-	}
-	return in
+	return c11In{Mode: "ahem", Engine: engine, Feat: ft.String(), Para: *p, Widths: widthsFor(r, p)}
 }
 
 func check(raw json.RawMessage) fw.Result {
